@@ -6,21 +6,27 @@ open MindsVerif.LR MindsVerif.OPM
 /-- `o` is an infix operator of the fragment (a binary operator or BETWEEN) -/
 def IsOp (P : Table) (F : Fragment) (o : Nat) : Prop := o ∈ F.bins ∨ o = P.btwTok
 
-theorem injOn_spec {f : Nat → Nat} : ∀ {l : List Nat}, injOn f l = true →
-    ∀ a, a ∈ l → ∀ b, b ∈ l → f a = f b → a = b := by
+theorem termCompat_spec {P : Table} {C : Cert} : ∀ {l : List Nat}, termCompat P C l = true →
+    ∀ a, a ∈ l → ∀ b, b ∈ l → C.opTerm a = C.opTerm b →
+      P.tokLevel a = P.tokLevel b ∧ (C.opRest a = C.opRest b → a = b) := by
   intro l
   induction l with
   | nil => intro _ a ha; cases ha
   | cons x xs ih =>
     intro h a ha b hb hab
-    simp only [injOn, Bool.and_eq_true, List.all_eq_true, bne_iff_ne, ne_eq] at h
+    simp only [termCompat, Bool.and_eq_true, List.all_eq_true, Bool.or_eq_true, bne_iff_ne, ne_eq,
+      beq_iff_eq] at h
     obtain ⟨hx, hxs⟩ := h
     rcases List.mem_cons.1 ha with rfl | ha'
     · rcases List.mem_cons.1 hb with rfl | hb'
-      · rfl
-      · exact absurd hab.symm (hx b hb')
+      · exact ⟨rfl, fun _ => rfl⟩
+      · rcases hx b hb' with h1 | ⟨h1, h2⟩
+        · exact absurd hab.symm h1
+        · exact ⟨h1.symm, fun e => absurd e.symm h2⟩
     · rcases List.mem_cons.1 hb with rfl | hb'
-      · exact absurd hab (hx a ha')
+      · rcases hx a ha' with h1 | ⟨h1, h2⟩
+        · exact absurd hab h1
+        · exact ⟨h1, fun e => absurd e h2⟩
       · exact ih hxs a ha' b hb' hab
 
 theorem rowND_some {T : Tables} {s : Nat} {r : Row} (h : rowND T s = some r) :
@@ -92,7 +98,10 @@ structure GlobalFacts (T : Tables) (P : Table) (F : Fragment) (C : Cert) : Prop 
   andMem : P.andTok ∈ F.bins
   btwTerm : C.opTerm P.btwTok = P.btwTok ∧ C.opRest P.btwTok = none
   andTerm : C.opTerm P.andTok = P.andTok ∧ C.opRest P.andTok = none
-  inj : ∀ a, IsOp P F a → ∀ b, IsOp P F b → C.opTerm a = C.opTerm b → a = b
+  /-- operators with the same first terminal and the same second terminal are the same operator -/
+  inj : ∀ a, IsOp P F a → ∀ b, IsOp P F b → C.opTerm a = C.opTerm b → C.opRest a = C.opRest b → a = b
+  /-- operators announced by the same terminal have the same lookahead level -/
+  lvl : ∀ a, IsOp P F a → ∀ b, IsOp P F b → C.opTerm a = C.opTerm b → P.tokLevel a = P.tokLevel b
   par : T.prods.get? C.parNo = some ⟨C.exprNt, [2 * C.lpar, 2 * C.exprNt + 1, 2 * C.rpar]⟩
   chain : ∀ pl, pl ∈ C.chain → ∃ pr, T.prods.get? pl.1 = some pr ∧ pr.lhs = pl.2 ∧ pr.rhs.length = 1
   chainNe : C.chain ≠ []
@@ -116,7 +125,8 @@ theorem globalFacts {T : Tables} {P : Table} {F : Fragment} {C : Cert}
       andMem := h4a
       btwTerm := ⟨hb1, hb2⟩
       andTerm := ⟨ha1, ha2⟩
-      inj := fun a ha b hb hab => injOn_spec hinj a (hmem a ha) b (hmem b hb) hab
+      inj := fun a ha b hb hab hr => (termCompat_spec hinj a (hmem a ha) b (hmem b hb) hab).2 hr
+      lvl := fun a ha b hb hab => (termCompat_spec hinj a (hmem a ha) b (hmem b hb) hab).1
       par := prodIs_spec h5
       chain := fun pl hpl => unitProd_spec (h6 pl hpl)
       chainNe := h7 }
